@@ -1212,3 +1212,31 @@ Proof.
   apply (proj2 (IndexStoreProofs.live_listing c s HI)). cbn. rewrite Hn. discriminate.
 Qed.
 Print Assumptions C05_index_store_counts_reachable.
+
+(* ------------------------------------------------------------------------------------------------
+   STORECONC: the step that STOREREF had to exclude never happens.  In every state of the composed
+   model Mgr/Core.v that is reachable from a new manager, no store operation of any action of any
+   thread (`drop_edge` of a token, of the consumed child edges of `get_or_insert` (found / failed),
+   of the child edges of a collected node) meets a node's last edge: the unique table's own edge
+   value keeps the stored count >= 1 until the collector removes the node *)
+From OxiVerif Require Mgr.Core Mgr.CoreProofs Mgr.CoreThms.
+
+Theorem C05_core_no_leaking_drop : forall k terms nl c s a s' r rs,
+  CoreProofs.kreachable k terms nl c s -> Core.kstep k terms nl c s a = Some (s', r, rs) ->
+  forall x, In x rs -> IndexStore.leaked x = false.
+Proof. exact CoreThms.core_no_leaking_drop. Qed.
+Print Assumptions C05_core_no_leaking_drop.
+
+Theorem C05_core_reachable_inv : forall k terms nl c s,
+  CoreProofs.kreachable k terms nl c s -> CoreProofs.KInv k terms nl c s.
+Proof. exact CoreProofs.kreachable_inv. Qed.
+Print Assumptions C05_core_reachable_inv.
+
+(* whole schedules: no leak anywhere, the projection is a run of Conc.v *)
+Theorem C05_core_run : forall k terms nl c sched s s' xs rs,
+  CoreProofs.KInv k terms nl c s -> Core.krun k terms nl c s sched = Some (s', xs, rs) ->
+  IndexStoreProofs.no_leak rs = true /\
+  Conc.run k terms nl (Core.kproj s) (Core.kacts_list sched xs) = Some (Core.kproj s') /\
+  CoreProofs.KInv k terms nl c s' /\ length xs = length sched.
+Proof. intros k terms nl c sched. exact (CoreProofs.krun_spec k terms nl c sched). Qed.
+Print Assumptions C05_core_run.
